@@ -31,6 +31,9 @@ pub enum DocOp {
     Field { name: String, value: String, kind: u8, x: f64, y: f64 },
     /// document outline: one item per title, pointing at page (index mod page count)
     Outline { titles: Vec<String> },
+    /// text in an embedded TrueType font (the repository's own test-pdfs/Roboto-Regular.ttf):
+    /// exercises font embedding, subsetting, widths and the ToUnicode CMap
+    CustomText { size: f64, x: f64, y: f64, text: String },
 }
 
 #[derive(Clone, Debug, Serialize, Deserialize, PartialEq)]
@@ -132,6 +135,12 @@ pub struct GenProgOpts {
     pub rich: bool,
     /// user-chosen resource and field names containing PDF delimiters, whitespace and non-ASCII
     pub tricky_names: bool,
+}
+
+/// Bytes of the TrueType font used by `DocOp::CustomText` (read from the repository under test).
+pub fn custom_font_bytes() -> Option<Vec<u8>> {
+    let repo = std::env::var("VERIF_REPO").unwrap_or_else(|_| "/repo".into());
+    std::fs::read(std::path::Path::new(&repo).join("test-pdfs/Roboto-Regular.ttf")).ok()
 }
 
 #[derive(Clone, Debug, Serialize, Deserialize, PartialEq)]
@@ -268,6 +277,7 @@ pub fn gen_program(r: &mut Rng, o: &GenProgOpts) -> Program {
                         rgb1: [0.0, r2(r.below(101) as f64 / 100.0), 1.0],
                     },
                     3 => DocOp::FormX { name: format!("Fm{}", rich_n), w: r2(10.0 + r.below(90) as f64), h: r2(10.0 + r.below(90) as f64) },
+                    4 if r.chance(1, 2) => DocOp::CustomText { size: *r.pick(&[9.0, 12.0, 18.0]), x, y, text: format!("{} \u{e9}\u{f1} {}", gen_text(r, false), r.below(1000)) },
                     4 => DocOp::Note { x, y, contents: gen_text(r, o.tricky_text) },
                     _ => DocOp::Field {
                         name: if o.tricky_names && r.chance(1, 2) { format!("{}.f{}_{}", TRICKY_NAMES[r.usize_below(TRICKY_NAMES.len())], rich_n, j) } else { format!("field_{}_{}", rich_n, j) },
@@ -298,6 +308,10 @@ pub fn build_document(p: &Program) -> Result<Document, String> {
     let mut doc = Document::new();
     let mut cur: Option<Page> = None;
     let mut fm: Option<oxidize_pdf::forms::FormManager> = None;
+    if p.ops.iter().any(|o| matches!(o, DocOp::CustomText { .. })) {
+        let bytes = custom_font_bytes().ok_or_else(|| "custom font file missing".to_string())?;
+        doc.add_font_from_bytes("Roboto", bytes).map_err(|e| format!("add_font_from_bytes: {}", e))?;
+    }
     let mut outline: Option<Vec<String>> = None;
     for op in &p.ops {
         match op {
@@ -404,6 +418,9 @@ pub fn build_document(p: &Program) -> Result<Document, String> {
                         let img = Image::from_raw_data(data, *w, *h, if *gray { ColorSpace::DeviceGray } else { ColorSpace::DeviceRGB }, 8);
                         pg.add_image(name.clone(), img);
                         pg.draw_image(name, *x, *y, *dw, *dh).map_err(|e| format!("draw_image: {}", e))?;
+                    }
+                    DocOp::CustomText { size, x, y, text } => {
+                        pg.text().set_font(Font::Custom("Roboto".to_string()), *size).at(*x, *y).write(text).map_err(|e| format!("custom text.write: {}", e))?;
                     }
                     DocOp::Opacity { fill, stroke } => {
                         let g = pg.graphics();
